@@ -122,7 +122,7 @@ CHECKS["C04"] = dict(
          "chain_composition: for two statement graphs whose only shared columns are produced-only by the first and consumed-only by "
          "the second, the end-to-end pairs of the composed graph = R1;R2 + pairs of 1 not consumed downstream + pairs of 2 not "
          "produced by 1; (4) D11 witnesses through the whole model (dev_D11, dev_D11_metadata), star-expansion / unqualified-"
-         "attribution witnesses. Tied to the code by: chain shape (8) x consumer column pattern (4) x provider (3) x schema (2) fully "
+         "attribution witnesses. Tied to the code by: chain shape (9) x consumer column pattern (4) x provider (3) x schema (2) fully "
          "enumerated scripts with seeded random bodies, run through the real LineageRunner with a session tap — complete path sets, "
          "table roles and register events vs the model (driver cmd chain), and an implementation-only oracle (script pairs == "
          "composition of the pairs of each statement analysed alone with the session knowledge the tap saw; session hygiene)",
